@@ -24,8 +24,25 @@ def gr_glue(c):
                 all(not v for v in p["routes"].values()):
             init = vf.canon(p)
             break
-    budget = None if thorough else 9000
-    seqs, covered, total = vf.cover_sequences(edges, init_key=init, max_len=40, budget=budget, seed=c.seed)
+    def klass(e):
+        # behaviourally distinct transition classes for the quick tier: machine state shape, timers, session
+        # state, which negotiated sets are empty / partial, whether marked / fresh routes exist, and the operation
+        p, o = e["pre"], e["op"]
+        marked = any(r["st"] or r["ll"] for rs in p["routes"].values() for r in rs)
+        fresh = any(not (r["st"] or r["ll"]) for rs in p["routes"].values() for r in rs)
+        ok = dict(o)
+        for f in ("x", "n"):
+            ok.pop(f, None)
+        for f in ("gr", "llgr"):
+            if f in ok:
+                ok[f] = len(ok[f])
+        return (p["gr"]["st"], len(p["gr"]["fams"]), len(p["gr"]["llgr"]), p["gr"]["fl"], p["rt"], len(p["lt"]),
+                p["sess"], len(p["sgr"]), len(p["sllgr"]), p["nbit"], marked, fresh, vf.canon(ok))
+    if thorough:
+        targets, nclass = None, None
+    else:
+        targets, nclass = vf.pick_targets(edges, klass, extra=800, seed=c.seed)
+    seqs, covered, total = vf.cover_sequences(edges, init_key=init, max_len=40, seed=c.seed, targets=targets)
     inp = os.path.join(vf.WORK, "C10.ev.in")
     outp = os.path.join(vf.WORK, "C10.ev.out")
 
@@ -102,7 +119,8 @@ def gr_glue(c):
                 c.violation(detail["kind"], detail, {"spec": "GrHelper", "steps": [line(edges[x]["op"]) for x in seq[:i]]})
                 break
     c.cov["parts"]["driver"] = {"model_transitions": total, "covered": covered, "sequences": len(seqs),
-                                "steps_replayed": steps, "reasons": reasons,
+                                "steps_replayed": steps, "reasons": reasons, "all_model_transitions": len(edges),
+                                "transition_classes": nclass,
                                 "not_executed": ["hold (needs a real 3 s wait)", "local_cease (max-prefix)"]}
     c.cov["evaluations"] += steps
     c.cov["traces_validated_against_impl"] += len(seqs)
